@@ -389,9 +389,12 @@ type c10Prog struct {
 	// MCoq: the program as a term of the MAP fragment (Heap/MapState.v mprog); its evaluations are also compared
 	// with the map model and the association-list specification (integer outcomes)
 	MCoq string `json:"mcoq,omitempty"`
+	// XCoq: the program as a term of the MIXED fragment (Heap/MixState.v xprog: lists and maps in one state, map
+	// literals built per evaluation); its evaluations are also compared with the mixed model and its specification
+	XCoq string `json:"xcoq,omitempty"`
 }
 
-func (p *c10Prog) modelled() bool { return p.Coq != "" || p.MCoq != "" }
+func (p *c10Prog) modelled() bool { return p.Coq != "" || p.MCoq != "" || p.XCoq != "" }
 
 func (p *c10Prog) objMakers(args []int64) []string {
 	var ms []string
@@ -460,7 +463,6 @@ func c10MkProg(name string, defs []c10Def, body *c10E, listBody bool) *c10Prog {
 	return &c10Prog{Name: name, Src: src.String(), Args: []string{"a0", "a1"}, Coq: cq.String(), Consts: consts, NewObjs: next, Class: class, ListBody: listBody}
 }
 
-
 // the MAP fragment: constant maps (literal, put, +, replace folded at Generate time) and put / + / field access /
 // size at run time; source text and the mprog term side by side (keys as code point lists)
 func c10MapModelledPool() []*c10Prog {
@@ -500,6 +502,463 @@ func c10MapModelledPool() []*c10Prog {
 		mk("map-modelled-missing-key", "let m0={a:1,b:2}; try m0.put(\"q\",a0).zz catch (a0*2+a1)",
 			[]string{ab},
 			"(MZTry "+get(put("(MConst 0)", "q", "(SArg 0)"), "zz")+" (MZS (SAdd (SMul (SArg 0) (SLit 2)) (SArg 1))))"),
+	}
+}
+
+// ---------------------------------------------------------------- the MIXED fragment (Heap/MixState.v)
+
+// an entry value: an integer expression or the list c<L> in scope
+type c10XV struct {
+	E *c10E `json:"e,omitempty"`
+	L int   `json:"l,omitempty"`
+}
+type c10XEnt struct {
+	K string `json:"k"`
+	V c10XV  `json:"v"`
+}
+
+// a map expression: const (m<I>) | lit | put | merge
+type c10XM struct {
+	Op string    `json:"op"`
+	I  int       `json:"i,omitempty"`
+	Es []c10XEnt `json:"es,omitempty"`
+	A  *c10XM    `json:"a,omitempty"`
+	B  *c10XM    `json:"b,omitempty"`
+	K  string    `json:"k,omitempty"`
+	V  c10XV     `json:"v,omitempty"`
+}
+
+// a run-time let: list (let c<n>=m.k;) | int (let n<n>=m.k;) | size (let n<n>=m.size();) |
+// index (let c<n>=o<O>[I];) | osize (let n<n>=o<O>.size();)
+type c10XB struct {
+	Kind string `json:"kind"`
+	M    *c10XM `json:"m,omitempty"`
+	K    string `json:"k,omitempty"`
+	O    int    `json:"o,omitempty"`
+	I    *c10E  `json:"i,omitempty"`
+}
+
+func (v c10XV) src() string {
+	if v.E != nil {
+		return v.E.src()
+	}
+	return fmt.Sprintf("c%d", v.L)
+}
+func (v c10XV) coq() string {
+	if v.E != nil {
+		return "(XVInt " + v.E.coq() + ")"
+	}
+	return fmt.Sprintf("(XVList %d)", v.L)
+}
+func (m *c10XM) src() string {
+	switch m.Op {
+	case "const":
+		return fmt.Sprintf("m%d", m.I)
+	case "lit":
+		var es []string
+		for _, e := range m.Es {
+			es = append(es, e.K+":"+e.V.src())
+		}
+		return "{" + strings.Join(es, ",") + "}"
+	case "put":
+		return m.A.src() + ".put(\"" + m.K + "\"," + m.V.src() + ")"
+	case "merge":
+		return "(" + m.A.src() + "+" + m.B.src() + ")"
+	}
+	panic("c10: unknown map op " + m.Op)
+}
+func (m *c10XM) coq() string {
+	switch m.Op {
+	case "const":
+		return fmt.Sprintf("(XMConst %d)", m.I)
+	case "lit":
+		var es []string
+		for _, e := range m.Es {
+			es = append(es, "("+CoqStr(e.K)+", "+e.V.coq()+")")
+		}
+		return "(XMLit [" + strings.Join(es, "; ") + "])"
+	case "put":
+		return "(XMPut " + m.A.coq() + " " + CoqStr(m.K) + " " + m.V.coq() + ")"
+	case "merge":
+		return "(XMMerge " + m.A.coq() + " " + m.B.coq() + ")"
+	}
+	panic("c10: unknown map op " + m.Op)
+}
+
+func xvI(e *c10E) c10XV                        { return c10XV{E: e} }
+func xvL(i int) c10XV                          { return c10XV{L: i} }
+func xmConst(i int) *c10XM                     { return &c10XM{Op: "const", I: i} }
+func xmPut(m *c10XM, k string, v c10XV) *c10XM { return &c10XM{Op: "put", A: m, K: k, V: v} }
+func xmMerge(a, b *c10XM) *c10XM               { return &c10XM{Op: "merge", A: a, B: b} }
+func xmLit(kv ...any) *c10XM {
+	m := &c10XM{Op: "lit"}
+	for i := 0; i < len(kv); i += 2 {
+		m.Es = append(m.Es, c10XEnt{K: kv[i].(string), V: kv[i+1].(c10XV)})
+	}
+	return m
+}
+
+// source text and xprog term side by side.  The run-time lets continue the numbering of the constants: a list-valued
+// let is c<number of list constants + i>, an integer-valued one n<number of scalar constants + i>, so the body
+// (LConst / SCst of Heap/FuncState.v) is rendered by the existing printer
+func c10MkMixed(name string, defs []c10Def, mdefs []*c10XM, binds []c10XB, body *c10E, listBody bool) *c10Prog {
+	return c10MkMixedO(name, defs, nil, mdefs, binds, body, listBody)
+}
+
+// a part of a string result: a literal or an integer expression (rendered in decimal by `+`)
+type c10SPart struct {
+	Lit string
+	E   *c10E
+}
+
+// a program of the mixed fragment whose result is a STRING: "lit"+e+"lit"+... (the first part is a literal, so every
+// `+` has a string on its left)
+func c10MkMixedStr(name string, defs []c10Def, odefs [][]int, mdefs []*c10XM, binds []c10XB, parts []c10SPart) *c10Prog {
+	var ss, cs []string
+	for _, pt := range parts {
+		if pt.E != nil {
+			ss = append(ss, pt.E.src())
+			cs = append(cs, "XSInt "+pt.E.coq())
+		} else {
+			ss = append(ss, "\""+pt.Lit+"\"")
+			cs = append(cs, "XSLit "+CoqStr(pt.Lit))
+		}
+	}
+	return c10MkMixedB(name, defs, odefs, mdefs, binds, strings.Join(ss, "+"), "(XBStr ["+strings.Join(cs, "; ")+"])", false)
+}
+
+// odefs: lists of lists `let o<k>=[c_i,c_j,...];`, each given by the numbers of the list constants it holds
+func c10MkMixedO(name string, defs []c10Def, odefs [][]int, mdefs []*c10XM, binds []c10XB, body *c10E, listBody bool) *c10Prog {
+	bk := "BZ "
+	if listBody {
+		bk = "BL "
+	}
+	return c10MkMixedB(name, defs, odefs, mdefs, binds, body.src(), "(XB ("+bk+body.coq()+"))", listBody)
+}
+
+func c10MkMixedB(name string, defs []c10Def, odefs [][]int, mdefs []*c10XM, binds []c10XB, bodySrc, bodyCoq string, listBody bool) *c10Prog {
+	var src strings.Builder
+	var ds, os, ms, bs []string
+	nl, ns := 0, 0
+	for _, d := range defs {
+		if d.Kind == "DL" {
+			fmt.Fprintf(&src, "let c%d=%s; ", nl, d.E.src())
+			ds = append(ds, "DL "+d.E.coq())
+			nl++
+		} else {
+			fmt.Fprintf(&src, "let n%d=c%d.size(); ", ns, d.I)
+			ds = append(ds, fmt.Sprintf("DS %d", d.I))
+			ns++
+		}
+	}
+	for k, od := range odefs {
+		var cs, ns []string
+		for _, i := range od {
+			cs = append(cs, fmt.Sprintf("c%d", i))
+			ns = append(ns, fmt.Sprintf("%d%%nat", i))
+		}
+		fmt.Fprintf(&src, "let o%d=[%s]; ", k, strings.Join(cs, ","))
+		os = append(os, "["+strings.Join(ns, "; ")+"]")
+	}
+	for i, m := range mdefs {
+		fmt.Fprintf(&src, "let m%d=%s; ", i, m.src())
+		ms = append(ms, m.coq())
+	}
+	for _, b := range binds {
+		switch b.Kind {
+		case "list":
+			fmt.Fprintf(&src, "let c%d=%s.%s; ", nl, b.M.src(), b.K)
+			bs = append(bs, "XBList "+b.M.coq()+" "+CoqStr(b.K))
+			nl++
+		case "int":
+			fmt.Fprintf(&src, "let n%d=%s.%s; ", ns, b.M.src(), b.K)
+			bs = append(bs, "XBInt "+b.M.coq()+" "+CoqStr(b.K))
+			ns++
+		case "index":
+			fmt.Fprintf(&src, "let c%d=o%d[%s]; ", nl, b.O, b.I.src())
+			bs = append(bs, fmt.Sprintf("XBIndex %d %s", b.O, b.I.coq()))
+			nl++
+		case "osize":
+			fmt.Fprintf(&src, "let n%d=o%d.size(); ", ns, b.O)
+			bs = append(bs, fmt.Sprintf("XBOSize %d", b.O))
+			ns++
+		default:
+			fmt.Fprintf(&src, "let n%d=%s.size(); ", ns, b.M.src())
+			bs = append(bs, "XBSize "+b.M.coq())
+			ns++
+		}
+	}
+	src.WriteString(bodySrc)
+	p := c10Opaque(name, src.String())
+	p.Class = "mixed:" + name
+	p.ListBody = listBody
+	p.XCoq = fmt.Sprintf("(mkXP [%s] [%s] [%s] [%s] %s)", strings.Join(ds, "; "), strings.Join(os, "; "), strings.Join(ms, "; "), strings.Join(bs, "; "), bodyCoq)
+	return p
+}
+
+// programs mixing lists and maps: a list constant (lazy / with spare capacity / failing) held by constant maps and by
+// map literals built per evaluation, reached through field access and appended to / materialised by the evaluation
+func c10MixedModelledPool() []*c10Prog {
+	a0, a1 := zS(sArg(0)), zS(sArg(1))
+	spare := []c10Def{dL(lLit(1, 2)), dL(lAppend(lConst(0), zS(sLit(3))))}
+	lazy := []c10Def{dL(lLit(1, 2, 3)), dL(lMap(sLit(1), lConst(0)))}
+	guard := []c10Def{dL(lLit(5, 6, 7, 8)), dL(lGuard(sLit(7), lConst(0)))}
+	holder := []*c10XM{xmLit("l", xvL(1), "n", xvI(sLit(1)))}
+	perEval := xmLit("a", xvI(sArg(0)), "l", xvL(1))
+	return []*c10Prog{
+		// the shared object reached through a per-evaluation literal AND through a wrapper of a constant map
+		c10MkMixed("mixed-spare-both-paths", spare, holder,
+			[]c10XB{{Kind: "list", M: perEval, K: "l"}, {Kind: "list", M: xmPut(xmConst(0), "z", xvI(sArg(1))), K: "l"}},
+			zAdd(zMul(zSize(lAppend(lConst(2), a0)), zS(sLit(10))), zIndex(lAppend(lConst(3), a1), zS(sLit(3)))), false),
+		c10MkMixed("mixed-spare-list-result", spare, holder,
+			[]c10XB{{Kind: "list", M: perEval, K: "l"}},
+			lAppend(lConst(2), a0), true),
+		// a lazy constant inside maps: the first evaluation materialises it through the map
+		c10MkMixed("mixed-lazy-through-literal", lazy, nil,
+			[]c10XB{{Kind: "list", M: xmLit("l", xvL(1), "k", xvI(sAdd(sArg(0), sArg(1)))), K: "l"}, {Kind: "int", M: xmLit("l", xvL(1), "k", xvI(sAdd(sArg(0), sArg(1)))), K: "k"}},
+			zAdd(zIndex(lConst(2), a0), zAdd(zSize(lAppend(lConst(1), a1)), zS(sAdd(sCst(0), sArg(0))))), false),
+		c10MkMixed("mixed-lazy-const-map-chain", lazy, []*c10XM{xmLit("l", xvL(1)), xmPut(xmConst(0), "l2", xvL(0)), xmLit("q", xvI(sLit(9)))},
+			[]c10XB{{Kind: "list", M: xmMerge(xmConst(1), xmPut(xmConst(2), "r", xvI(sArg(0)))), K: "l2"}, {Kind: "list", M: xmMerge(xmConst(1), xmPut(xmConst(2), "r", xvI(sArg(0)))), K: "l"},
+				{Kind: "size", M: xmMerge(xmConst(1), xmPut(xmConst(2), "r", xvI(sArg(0))))}},
+			lConcat(lAppend(lConst(2), a0), lMap(sAdd(sCst(0), sArg(1)), lConst(3))), true),
+		// failing lets: missing key, put on an existing key, merge clash - the evaluation fails, nothing is left behind
+		c10MkMixed("mixed-missing-key", spare, holder,
+			[]c10XB{{Kind: "list", M: xmPut(xmConst(0), "z", xvI(sArg(0))), K: "lx"}},
+			zSize(lAppend(lConst(2), a0)), false),
+		c10MkMixed("mixed-put-existing", spare, holder,
+			[]c10XB{{Kind: "list", M: xmPut(perEval, "a", xvI(sArg(1))), K: "l"}},
+			zSize(lAppend(lConst(2), a0)), false),
+		c10MkMixed("mixed-merge-clash-some", spare, holder,
+			[]c10XB{{Kind: "size", M: xmMerge(xmConst(0), xmLit("a", xvI(sArg(0)), "l2", xvL(0)))}, {Kind: "list", M: xmMerge(xmConst(0), xmLit("a", xvI(sArg(0)), "l2", xvL(0))), K: "l2"}},
+			zAdd(zS(sMul(sCst(0), sArg(1))), zTry(zIndex(lAppend(lConst(2), a0), a1), zS(sLit(-5)))), false),
+		// a constant whose materialisation fails, held by a map: every evaluation that touches it fails again
+		c10MkMixed("mixed-guard-in-map", guard, []*c10XM{xmLit("l", xvL(1), "n", xvI(sLit(4)))},
+			[]c10XB{{Kind: "list", M: xmPut(xmConst(0), "z", xvI(sArg(0))), K: "l"}, {Kind: "int", M: xmPut(xmConst(0), "z", xvI(sArg(0))), K: "z"}},
+			zTry(zSize(lAppend(lConst(2), a0)), zAdd(zFirst(lTop(sAdd(sArg(1), sLit(1)), lConst(2))), zS(sCst(0)))), false),
+		// LISTS OF LISTS: inner lists (lazy / with spare capacity) held by an outer constant, obtained by index, appended to
+		c10MkMixedO("mixed-lol-nested-const", []c10Def{dL(lLit(1, 2)), dL(lMap(sLit(1), lConst(0))), dL(lLit(3)), dL(lAppend(lConst(2), zS(sLit(4))))},
+			[][]int{{1, 3}}, nil, []c10XB{{Kind: "index", O: 0, I: sArg(0)}},
+			lAppend(lConst(4), a1), true),
+		c10MkMixedO("mixed-lol-spare-twice", spare, [][]int{{1, 0, 1}}, nil,
+			[]c10XB{{Kind: "index", O: 0, I: sArg(0)}, {Kind: "index", O: 0, I: sAdd(sArg(1), sLit(-1))}, {Kind: "osize", O: 0}},
+			zAdd(zMul(zIndex(lAppend(lConst(2), a0), zS(sArg(1))), zS(sLit(100))), zAdd(zSize(lAppend(lConst(3), a1)), zS(sMul(sCst(0), sArg(0))))), false),
+		c10MkMixedO("mixed-lol-lazy-in-map", lazy, [][]int{{0, 1}, {1}}, []*c10XM{xmLit("l", xvL(1), "n", xvI(sLit(2)))},
+			[]c10XB{{Kind: "index", O: 0, I: sArg(0)}, {Kind: "list", M: xmLit("a", xvI(sArg(1)), "l", xvL(2)), K: "l"}, {Kind: "list", M: xmPut(xmConst(0), "z", xvI(sArg(1))), K: "l"}, {Kind: "index", O: 1, I: sLit(0)}},
+			zAdd(zAdd(zSum(lMap(sArg(1), lConst(3))), zIndex(lConst(4), a1)), zSize(lAppend(lConst(5), a0))), false),
+		c10MkMixedO("mixed-lol-guard-inner", guard, [][]int{{0, 1}}, nil,
+			[]c10XB{{Kind: "index", O: 0, I: sArg(0)}},
+			zTry(zSize(lAppend(lConst(2), a1)), zAdd(zFirst(lTop(sAdd(sArg(1), sLit(1)), lConst(2))), zS(sArg(1)))), false),
+		// STRING results: immutable scalars built from integer lets, arguments and constants
+		c10MkMixedStr("mixed-string-plain", nil, nil, nil, nil,
+			[]c10SPart{{Lit: "x"}, {E: sArg(0)}, {Lit: "y"}, {E: sArg(1)}}),
+		c10MkMixedStr("mixed-string-from-maps", []c10Def{dL(lLit(1, 2, 3)), dS(0)}, [][]int{{0, 0}}, []*c10XM{xmLit("l", xvL(0), "n", xvI(sLit(7)))},
+			[]c10XB{{Kind: "int", M: xmPut(xmConst(0), "z", xvI(sArg(0))), K: "z"}, {Kind: "int", M: xmPut(xmConst(0), "z", xvI(sArg(0))), K: "n"}, {Kind: "osize", O: 0}},
+			[]c10SPart{{Lit: "z="}, {E: sCst(1)}, {Lit: ";n="}, {E: sCst(2)}, {Lit: ";"}, {E: sMul(sArg(1), sLit(2))}, {Lit: ","}, {E: sAdd(sCst(0), sCst(3))}}),
+		// per-evaluation literals only (no constant map), integer fields and size
+		c10MkMixed("mixed-literal-ints", nil, nil,
+			[]c10XB{{Kind: "int", M: xmPut(xmLit("a", xvI(sArg(0)), "b", xvI(sMul(sArg(1), sLit(3)))), "c", xvI(sAdd(sArg(0), sLit(1)))), K: "c"},
+				{Kind: "size", M: xmMerge(xmLit("a", xvI(sArg(0))), xmLit("b", xvI(sArg(1)), "c", xvI(sLit(2))))}},
+			zS(sAdd(sMul(sCst(0), sLit(10)), sAdd(sCst(1), sArg(1)))), false),
+	}
+}
+
+// a random program of the mixed fragment: list constants, map constants that hold them (distinct keys: folding cannot
+// fail), run-time lets over literals / put / + (these may fail), and a body of the list language over all of them
+func c10RandomMixed(r *Rng, n int) *c10Prog {
+	g := &c10Gen{r: r}
+	var defs []c10Def
+	nd := 1 + r.Pick(3)
+	for i := 0; i < nd; i++ {
+		e := g.closedL(1 + r.Pick(2))
+		if e.Op == "lconst" {
+			e = lMap(sLit(int64(1+r.Pick(3))), e)
+		}
+		defs = append(defs, dL(e))
+		g.nl++
+	}
+	var odefs [][]int
+	for i, no := 0, r.Pick(3); i < no; i++ {
+		var od []int
+		for j, ne := 0, 2+r.Pick(3); j < ne; j++ {
+			od = append(od, r.Pick(g.nl))
+		}
+		odefs = append(odefs, od)
+	}
+	ikeys := []string{"a", "b", "k", "n", "z"}
+	lkeys := []string{"l", "l2", "lx", "lst"}
+	entry := func(used map[string]bool, closed bool) (c10XEnt, bool) {
+		if r.Chance(0.55) {
+			k := lkeys[r.Pick(len(lkeys))]
+			if used[k] {
+				return c10XEnt{}, false
+			}
+			used[k] = true
+			return c10XEnt{K: k, V: xvL(r.Pick(g.nl))}, true
+		}
+		k := ikeys[r.Pick(len(ikeys))]
+		if used[k] {
+			return c10XEnt{}, false
+		}
+		used[k] = true
+		if closed {
+			return c10XEnt{K: k, V: xvI(sLit(int64(r.Pick(7))))}, true
+		}
+		return c10XEnt{K: k, V: xvI(g.sexp(1, true))}, true
+	}
+	lit := func(used map[string]bool, closed bool) *c10XM {
+		m := &c10XM{Op: "lit"}
+		for i, ne := 0, 1+r.Pick(3); i < ne; i++ {
+			if e, ok := entry(used, closed); ok {
+				m.Es = append(m.Es, e)
+			}
+		}
+		return m
+	}
+	// map constants, with the keys each shows
+	var mdefs []*c10XM
+	var mkeys []map[string]bool
+	for i, nm := 0, r.Pick(3); i < nm; i++ {
+		used := map[string]bool{}
+		var m *c10XM
+		switch {
+		case len(mdefs) > 0 && r.Chance(0.3):
+			b := r.Pick(len(mdefs))
+			for k := range mkeys[b] {
+				used[k] = true
+			}
+			m = xmConst(b)
+			if e, ok := entry(used, true); ok {
+				m = xmPut(m, e.K, e.V)
+			} else {
+				m = nil
+			}
+		default:
+			m = lit(used, true)
+		}
+		if m != nil {
+			mdefs = append(mdefs, m)
+			mkeys = append(mkeys, used)
+		}
+	}
+	// run-time map expressions with the keys they show; mostly well formed, now and then a clash (the let fails)
+	copyKeys := func(m map[string]bool) map[string]bool {
+		c := map[string]bool{}
+		for k := range m {
+			c[k] = true
+		}
+		return c
+	}
+	var rmexp func(d int) (*c10XM, map[string]bool)
+	rmexp = func(d int) (*c10XM, map[string]bool) {
+		if d <= 0 || r.Chance(0.3) {
+			if len(mdefs) > 0 && r.Chance(0.5) {
+				i := r.Pick(len(mdefs))
+				keys := copyKeys(mkeys[i])
+				k := ikeys[r.Pick(len(ikeys))]
+				if keys[k] && r.Chance(0.85) {
+					return xmConst(i), keys
+				}
+				keys[k] = true
+				return xmPut(xmConst(i), k, xvI(sArg(r.Pick(2)))), keys
+			}
+			used := map[string]bool{}
+			return lit(used, false), used
+		}
+		m, keys := rmexp(d - 1)
+		if r.Chance(0.5) {
+			used := copyKeys(keys)
+			if r.Chance(0.1) {
+				used = map[string]bool{}
+			}
+			if e, ok := entry(used, false); ok {
+				keys[e.K] = true
+				return xmPut(m, e.K, e.V), keys
+			}
+			return m, keys
+		}
+		m2, keys2 := rmexp(d - 1)
+		clash := false
+		for k := range keys2 {
+			clash = clash || keys[k]
+		}
+		if clash && r.Chance(0.85) {
+			return m, keys
+		}
+		for k := range keys2 {
+			keys[k] = true
+		}
+		return xmMerge(m, m2), keys
+	}
+	pickKey := func(keys map[string]bool, list bool) (string, bool) {
+		var ks []string
+		for _, k := range append(append([]string{}, ikeys...), lkeys...) {
+			if keys[k] && strings.HasPrefix(k, "l") == list {
+				ks = append(ks, k)
+			}
+		}
+		if len(ks) == 0 {
+			return "", false
+		}
+		return ks[r.Pick(len(ks))], true
+	}
+	var binds []c10XB
+	for i, nb := 0, 1+r.Pick(3); i < nb; i++ {
+		if len(odefs) > 0 && r.Chance(0.4) {
+			o := r.Pick(len(odefs))
+			if r.Chance(0.2) {
+				binds = append(binds, c10XB{Kind: "osize", O: o})
+				g.ns++
+			} else {
+				ix := sArg(r.Pick(2)) // sometimes out of range: the let fails
+				if r.Chance(0.5) {
+					ix = sLit(int64(r.Pick(len(odefs[o]))))
+				}
+				binds = append(binds, c10XB{Kind: "index", O: o, I: ix})
+				g.nl++
+			}
+			continue
+		}
+		m, keys := rmexp(1 + r.Pick(2))
+		kind := r.Pick(5)
+		if r.Chance(0.08) {
+			keys = map[string]bool{"l": true, "l2": true, "a": true, "n": true} // possibly a missing key
+		}
+		if k, ok := pickKey(keys, true); ok && kind >= 2 {
+			binds = append(binds, c10XB{Kind: "list", M: m, K: k})
+			g.nl++
+		} else if k, ok := pickKey(keys, false); ok && kind >= 1 {
+			binds = append(binds, c10XB{Kind: "int", M: m, K: k})
+			g.ns++
+		} else {
+			binds = append(binds, c10XB{Kind: "size", M: m})
+			g.ns++
+		}
+	}
+	if r.Chance(0.15) {
+		parts := []c10SPart{{Lit: []string{"x", "n=", "s:", "a b"}[r.Pick(4)]}}
+		for i, np := 0, 1+r.Pick(3); i < np; i++ {
+			parts = append(parts, c10SPart{E: g.sexp(1, r.Chance(0.7))})
+			if r.Chance(0.6) {
+				parts = append(parts, c10SPart{Lit: []string{";", "y", " ", "-"}[r.Pick(4)]})
+			}
+		}
+		p := c10MkMixedStr(fmt.Sprintf("random-mixed-%d", n), defs, odefs, mdefs, binds, parts)
+		p.Class = "mixed:random-string"
+		return p
+	}
+	listBody := r.Chance(0.3)
+	for {
+		var body *c10E
+		if listBody {
+			body = g.lexp(1 + r.Pick(3))
+		} else {
+			body = g.zexp(1 + r.Pick(3))
+		}
+		if body.nofold() && body.hasArg() && body.hasConst() {
+			p := c10MkMixedO(fmt.Sprintf("random-mixed-%d", n), defs, odefs, mdefs, binds, body, listBody)
+			p.Class = "mixed:random"
+			return p
+		}
 	}
 }
 
@@ -545,22 +1004,22 @@ func lStage(st string, a, b *c10E) *c10E {
 	}
 	return &c10E{Op: "lstage", S: st, A: a, B: b}
 }
-func lOrder(l *c10E) *c10E       { return &c10E{Op: "lorder", A: l} }
-func zCall(a, b, x *c10E) *c10E  { return &c10E{Op: "zcall", A: a, B: b, C: x} }
-func lTop(n, l *c10E) *c10E    { return &c10E{Op: "ltop", A: n, B: l} }
-func lSkip(n, l *c10E) *c10E   { return &c10E{Op: "lskip", A: n, B: l} }
-func lConcat(a, b *c10E) *c10E { return &c10E{Op: "lconcat", A: a, B: b} }
-func lReverse(l *c10E) *c10E   { return &c10E{Op: "lreverse", A: l} }
-func lForce(l *c10E) *c10E     { return &c10E{Op: "lforce", A: l} }
-func zS(s *c10E) *c10E         { return &c10E{Op: "zs", A: s} }
-func zAdd(a, b *c10E) *c10E    { return &c10E{Op: "zadd", A: a, B: b} }
-func zMul(a, b *c10E) *c10E    { return &c10E{Op: "zmul", A: a, B: b} }
-func zIndex(l, i *c10E) *c10E  { return &c10E{Op: "zindex", A: l, B: i} }
-func zSize(l *c10E) *c10E      { return &c10E{Op: "zsize", A: l} }
-func zSum(l *c10E) *c10E       { return &c10E{Op: "zsum", A: l} }
-func zFirst(l *c10E) *c10E     { return &c10E{Op: "zfirst", A: l} }
-func zThrow() *c10E            { return &c10E{Op: "zthrow"} }
-func zTry(a, b *c10E) *c10E    { return &c10E{Op: "ztry", A: a, B: b} }
+func lOrder(l *c10E) *c10E      { return &c10E{Op: "lorder", A: l} }
+func zCall(a, b, x *c10E) *c10E { return &c10E{Op: "zcall", A: a, B: b, C: x} }
+func lTop(n, l *c10E) *c10E     { return &c10E{Op: "ltop", A: n, B: l} }
+func lSkip(n, l *c10E) *c10E    { return &c10E{Op: "lskip", A: n, B: l} }
+func lConcat(a, b *c10E) *c10E  { return &c10E{Op: "lconcat", A: a, B: b} }
+func lReverse(l *c10E) *c10E    { return &c10E{Op: "lreverse", A: l} }
+func lForce(l *c10E) *c10E      { return &c10E{Op: "lforce", A: l} }
+func zS(s *c10E) *c10E          { return &c10E{Op: "zs", A: s} }
+func zAdd(a, b *c10E) *c10E     { return &c10E{Op: "zadd", A: a, B: b} }
+func zMul(a, b *c10E) *c10E     { return &c10E{Op: "zmul", A: a, B: b} }
+func zIndex(l, i *c10E) *c10E   { return &c10E{Op: "zindex", A: l, B: i} }
+func zSize(l *c10E) *c10E       { return &c10E{Op: "zsize", A: l} }
+func zSum(l *c10E) *c10E        { return &c10E{Op: "zsum", A: l} }
+func zFirst(l *c10E) *c10E      { return &c10E{Op: "zfirst", A: l} }
+func zThrow() *c10E             { return &c10E{Op: "zthrow"} }
+func zTry(a, b *c10E) *c10E     { return &c10E{Op: "ztry", A: a, B: b} }
 func zIf(a, b, t, e *c10E) *c10E {
 	return &c10E{Op: "zif", A: a, B: b, C: t, D: e}
 }
@@ -635,7 +1094,6 @@ func c10Pool() []*c10Prog {
 	}
 }
 
-
 // stateful lazy stages: (a) a constant-folded stage value shared by all evaluations, iterated (never
 // materialised) by each of them completely or partially (string / first / top(2) / reduce, chosen by a1);
 // (b) a let-bound stage value traversed twice in ONE evaluation (twice completely, after an early stop, after
@@ -691,7 +1149,6 @@ func c10StatefulPool() []*c10Prog {
 	return ps
 }
 
-
 // (e) type-polymorphic call sites: the receiver of ONE call site varies across the evaluations of one function
 // between list / map without such a field / map with a closure field named like a method / string / number;
 // (f) operators and methods between two lists / maps with a constant left operand, the right operand (or both)
@@ -736,8 +1193,9 @@ func c10ObjectPool() []*c10Prog {
 
 func c10FullPool() []*c10Prog { return append(c10FullPool0(), c10FirstUsePool()...) }
 
-func c10FullPool0() []*c10Prog { return append(append(append(append(append(c10Pool(), c10MapModelledPool()...), c10StageModelledPool()...), c10FailingPool()...), c10StatefulPool()...), c10ObjectPool()...) }
-
+func c10FullPool0() []*c10Prog {
+	return append(append(append(append(append(append(c10Pool(), c10MapModelledPool()...), c10MixedModelledPool()...), c10StageModelledPool()...), c10FailingPool()...), c10StatefulPool()...), c10ObjectPool()...)
+}
 
 // lazy constants whose MATERIALISATION fails at an element k > 0 (List.Eval must leave the object untouched), and
 // the same for a lazy list object the harness passes as argument to several evaluations
@@ -1283,6 +1741,9 @@ func c10RandomSession(r *Rng, id int, pool []*c10Prog, maxLen int) *c10Case {
 	var progs []*c10Prog
 	pick := func() *c10Prog {
 		if r.Chance(0.55) {
+			if r.Chance(0.25) {
+				return c10RandomMixed(r, id*100+len(progs))
+			}
 			return c10RandomProg(r, id*100+len(progs))
 		}
 		return pool[r.Pick(len(pool))]
@@ -1340,7 +1801,10 @@ type c10Result struct {
 	coqEvents, coqObs []string
 	outs              []c10Out // per event (gen: zero value)
 	viol              *GoViolation
-	mcases            []string     // evaluations of programs of the map fragment, as Coq terms
+	mcases            []string         // evaluations of programs of the map fragment, as Coq terms
+	xprogs            map[int]string   // session function number -> xprog term (mixed fragment)
+	xevals            map[int][]string // ... -> its evaluations in the order of the Eval calls, as Coq terms
+	xorder            []int
 	argViol           *GoViolation // an argument object of the pool changed (reported besides viol)
 	nontriv           bool
 	evals             int
@@ -1410,6 +1874,18 @@ func c10RunSession(c *c10Case, sum *Summary) *c10Result {
 			res.coqObs = append(res.coqObs, "")
 			reps, _ := fn.constReps()
 			nn, evv := n, ev
+			xslot := -1
+			if fn.prog.XCoq != "" {
+				if res.xprogs == nil {
+					res.xprogs, res.xevals = map[int]string{}, map[int][]string{}
+				}
+				if _, ok := res.xprogs[ev.K]; !ok {
+					res.xprogs[ev.K] = fn.prog.XCoq
+					res.xorder = append(res.xorder, ev.K)
+				}
+				xslot = len(res.xevals[ev.K])
+				res.xevals[ev.K] = append(res.xevals[ev.K], "")
+			}
 			finish := func() {
 				out := c10Consume(v, err, evv.J, fn.prog.modelled())
 				res.outs[nn] = out
@@ -1429,6 +1905,14 @@ func c10RunSession(c *c10Case, sum *Summary) *c10Result {
 					}
 					res.mcases = append(res.mcases, fmt.Sprintf("MCase %s %s %s", fn.prog.MCoq, c10ZList(evv.Args), o))
 					sum.Count("map_fragment", "evaluations compared with the map model")
+				}
+				if xslot >= 0 {
+					o := "(XO " + out.coq() + ")"
+					if out.Kind == "str" {
+						o = "(XOStr " + CoqStr(out.S) + ")"
+					}
+					res.xevals[evv.K][xslot] = fmt.Sprintf("(%s, %d%%nat, %s)", c10ZList(evv.Args), evv.J, o)
+					sum.Count("mixed_fragment", "evaluations compared with the mixed list/map model")
 				}
 				if fn.prog.Coq == "" {
 					res.coqEvents[nn], res.coqObs[nn] = "EScratch []", "XNone"
@@ -1485,7 +1969,8 @@ func c10RunSession(c *c10Case, sum *Summary) *c10Result {
 						other = true
 					}
 				}
-				if other && (fn.prog.Class == "lazy-const" || fn.prog.Class == "spare-const" || strings.HasPrefix(fn.prog.Class, "opaque:lazy") || fn.prog.Class == "opaque:append-both") {
+				if other && (fn.prog.Class == "lazy-const" || fn.prog.Class == "spare-const" || strings.HasPrefix(fn.prog.Class, "opaque:lazy") || fn.prog.Class == "opaque:append-both" ||
+					strings.HasPrefix(fn.prog.Class, "mixed:mixed-spare") || strings.HasPrefix(fn.prog.Class, "mixed:mixed-lazy") || strings.HasPrefix(fn.prog.Class, "mixed:mixed-lol")) {
 					res.nontriv = true
 				}
 			}
@@ -1569,7 +2054,7 @@ func cmdC10(seed int64, tier, outDir string) {
 	sum := NewSummary("C10", seed, tier)
 	sum.Rule = "a session = one generator, <= 50 events (Generate calls of pool/random programs, evaluations with arguments from {0,1,2,3,5,-1}^2, list results consumed 0/1/2/all); non-trivial = some (function, arguments, consumption) is evaluated >= 2 times with >= 1 different evaluation in between and the program has a lazy or appendable (spare capacity) list constant; distinct by the text of the session"
 	evalCap, appCap := c10MeasureCaps(80)
-	cw := NewCaseWriter(outDir, "From P2 Require Import Base.Prelude Heap.ListHeap Heap.MapHeap Heap.FuncState Heap.MapState Run.C10Run.",
+	cw := NewCaseWriter(outDir, "From P2 Require Import Base.Prelude Heap.ListHeap Heap.MapHeap Heap.FuncState Heap.MapState Heap.MixState Run.C10Run.",
 		"c10_case", "c10_id", "(c10_im go_caps)", "c10_is", 40)
 	cw.prelude = fmt.Sprintf("Definition go_caps := caps_of_tables %s %s.\n", c10NatList(evalCap), c10NatList(appCap))
 	sum.Extra["go_append_capacities"] = map[string]any{"eval_loop": evalCap[:20], "append_to_full": appCap[:20]}
@@ -1618,7 +2103,11 @@ func cmdC10(seed int64, tier, outDir string) {
 			}
 		}
 		sum.Sample(d["session"])
-		cw.Add(fmt.Sprintf("(%d, [%s],\n  [%s],\n  [%s])", c.ID, strings.Join(res.coqEvents, "; "), strings.Join(res.coqObs, "; "), strings.Join(res.mcases, "; ")))
+		var xcases []string
+		for _, k := range res.xorder {
+			xcases = append(xcases, fmt.Sprintf("XCase %s [%s]", res.xprogs[k], strings.Join(res.xevals[k], "; ")))
+		}
+		cw.Add(fmt.Sprintf("(%d, [%s],\n  [%s],\n  [%s],\n  [%s])", c.ID, strings.Join(res.coqEvents, "; "), strings.Join(res.coqObs, "; "), strings.Join(res.mcases, "; "), strings.Join(xcases, ";\n   ")))
 	}
 	sort.SliceStable(viols, func(i, j int) bool {
 		return len(fmt.Sprint(viols[i].Human["session"])) < len(fmt.Sprint(viols[j].Human["session"]))
